@@ -55,7 +55,7 @@ func (c *c14ctx) fail(n ast.Node, f string, a ...any) {
 var c14vars = map[string]string{
 	"x": "Vx", "z": "Vz", "need": "Vneed", "n": "Vn", "now": "Vnow", "sec": "Vsec", "num": "Vnum",
 	"length": "Vlength", "size": "Vsize", "i": "Vi", "o": "Vo", "s": "Vs", "v": "Vv",
-	"offset": "Voffset", "timestamp": "Vtimestamp", "oldN": "VoldN", "oldNow": "VoldNow",
+	"offset": "Voffset", "timestamp": "Vtimestamp", "oldN": "VoldN", "oldNow": "VoldNow", "off": "Voff",
 	"len(data)": "VlenData", "r.offsets[z][x]": "Vtab",
 }
 
@@ -360,6 +360,27 @@ func c14assigns(list []ast.Stmt, name string) bool {
 }
 
 func (c *c14ctx) stmt(s ast.Stmt, ind string) []string {
+	if c.fn == "writeAt" {
+		st := c.txt(s)
+		switch x := s.(type) {
+		case *ast.IfStmt:
+			// if f, ok := r.f.(io.WriterAt); ok { ... }
+			if x.Init != nil && x.Else == nil && c.txt(x.Init) == "f, ok := r.f.(io.WriterAt)" && c.txt(x.Cond) == "ok" {
+				return []string{fmt.Sprintf("SIfWriterAt %s\n%s    %s", c14q("if f, ok := r.f.(io.WriterAt); ok"), ind, c.block(x.Body.List, ind))}
+			}
+		case *ast.ReturnStmt:
+			if len(x.Results) == 1 {
+				if fun, args, ok := c14call(x.Results[0]); ok {
+					switch {
+					case fun == "f.WriteAt" && len(args) == 2 && c.txt(args[0]) == "p":
+						return []string{"SRetWriteAt " + c14q(st) + " " + c.intExprAs(args[1], "WriteAt_off", c14int64)}
+					case fun == "r.f.Write" && len(args) == 1 && c.txt(args[0]) == "p":
+						return []string{"SRetWrite " + c14q(st)}
+					}
+				}
+			}
+		}
+	}
 	if t, ok := c.errCheck(s, ind); ok {
 		return []string{t}
 	}
@@ -647,6 +668,7 @@ var c14fns = []c14fn{
 	{"Region", "PadToFullSector", "", "", nil},
 	{"Region", "findSpace", "need", "n", map[string]types.Type{"need": c14int32, "n": c14int32}},
 	{"Region", "setHead", "x,z,offset,timestamp", "err", map[string]types.Type{"x": c14int, "z": c14int, "offset": c14u32, "timestamp": c14u32}},
+	{"Region", "writeAt", "p,off", "n,err", map[string]types.Type{"off": c14int64}},
 }
 
 func genC14(repo string) (out string, err error) {
@@ -747,17 +769,6 @@ func genC14(repo string) (out string, err error) {
 	if len(tabs) == 0 {
 		return "", fmt.Errorf("save/region: type Region not found")
 	}
-	// writeAt as text
-	wa := findFunc(files, "Region", "writeAt")
-	if wa == nil || wa.Body == nil {
-		return "", fmt.Errorf("save/region: method writeAt not found")
-	}
-	c.fn = "writeAt"
-	var wat []string
-	for _, s := range wa.Body.List {
-		wat = append(wat, c14q(c.txt(s)))
-	}
-
 	var b bytes.Buffer
 	b.WriteString("(* GENERATED by tools/gotrans (c14.go) from save/region/mca.go - do not edit *)\n")
 	b.WriteString("From Coq Require Import ZArith Bool List String.\n")
@@ -768,7 +779,6 @@ func genC14(repo string) (out string, err error) {
 	b.WriteString("(* ---- statement skeletons ---- *)\nLocal Open Scope string_scope.\n\n")
 	b.Write(skels.Bytes())
 	fmt.Fprintf(&b, "(* save/region/mca.go: the fields of type Region *)\nDefinition Region_fields : list string :=\n  [%s].\n\n", strings.Join(tabs, ";\n   "))
-	fmt.Fprintf(&b, "(* save/region/mca.go: Region.writeAt *)\nDefinition writeAt_text : list string :=\n  [%s].\n", strings.Join(wat, ";\n   "))
 	return b.String(), nil
 }
 
